@@ -85,6 +85,7 @@ def LogRel (sn : σ) (m : MonS σ α) (c : Conn α) : Prop :=
 
 structure MonRel08 (sn : σ) (m : MonS σ α) (c : Conn α) : Prop where
   store : m.store = c.cfg.hasStore
+  first : ∀ sid, m.first sn sid = c.purged sid
   logs : LogRel sn m c
   exs : EvRel (fun _ => True) sn m c (taggedAt c)
 
@@ -335,6 +336,8 @@ structure RecFacts (og : Origin) (c c' : Conn α) : Prop where
   ghost : ∀ e, c'.exs[c.exs.length]? = some e → e.live → e.from = og.from ∧ ∀ t, og.stream = some t → t = e.stream
   resume : og.isGet = true → ∀ e, c'.exs[c.exs.length]? = some e → e.kind = .sse → idCount e.lost = 0 →
     e.from ≤ ((c'.store e.stream).getD []).length → e.from + idCount e.out = ((c'.store e.stream).getD []).length
+  purgedErr : og.isGet = true → ∀ e, c'.exs[c.exs.length]? = some e → e.kind = .sse →
+    ∀ t, og.stream = some t → ¬ og.from < c.purged t
 
 theorem openAll_spec (sn : σ) (og : Origin) (c c' : Conn α) (hg : Grow c c') (m : MonS σ α) :
     (∀ j, (openAll m (obsOf sn og c c')).exs j =
@@ -668,22 +671,199 @@ theorem quiesce_ok {sn : σ} {og : Origin} {c c' : Conn α} (hw' : Inv c') (h8' 
     rw [hA, hB]; rfl
   · rfl
 
+/-! ### evictions -/
+
+@[simp] theorem bindPost_firstF (m : MonS σ α) (s : σ) (t k : Nat) : (m.bindPost s t k).first = m.first := by
+  unfold MonS.bindPost; split <;> rfl
+@[simp] theorem routeBind_firstF (m : MonS σ α) (pv : Prov σ) (s : σ) (st k : Option Nat) : (routeBind m pv s st k).first = m.first := by
+  cases st <;> cases pv <;> simp only [routeBind] <;> split <;> simp
+
+theorem foldl_firstF {A : Type} (f : MonS σ α → A → MonS σ α) (hf : ∀ m a, (f m a).first = m.first) :
+    ∀ (l : List A) (m : MonS σ α), (l.foldl f m).first = m.first := by
+  intro l
+  induction l with
+  | nil => intro m; rfl
+  | cons a t ih => intro m; simp only [List.foldl_cons]; rw [ih, hf]
+
+theorem foldV_firstF {A : Type} (f : MonS σ α → A → MonS σ α × Viol) (hf : ∀ m a, (f m a).1.first = m.first) :
+    ∀ (l : List A) (m : MonS σ α), (foldV f m l).1.first = m.first := by
+  intro l
+  induction l with
+  | nil => intro m; rfl
+  | cons a t ih => intro m; simp only [foldV]; rw [ih, hf]
+
+theorem openAll_first (m : MonS σ α) (o : Obs σ α) : (openAll m o).first = m.first :=
+  foldl_firstF (fun (m : MonS σ α) (x : Nat × Bool) => m.putEx x.1 (mkEx o x.2)) (fun _ _ => rfl) _ _
+
+theorem learnRows_first (m : MonS σ α) (o : Obs σ α) : (learnRows m o).first = m.first := by
+  unfold learnRows
+  refine foldl_firstF (fun (m : MonS σ α) (s : Snap σ) => s.rows.foldl (learnRow o s.sess) m) ?_ _ _
+  intro m s
+  refine foldl_firstF _ ?_ _ _
+  intro m r
+  unfold learnRow
+  split
+  · rfl
+  · split
+    · rfl
+    · split <;> simp [MonS.putEx]
+
+theorem learnIds_first (m : MonS σ α) (o : Obs σ α) : (learnIds m o).first = m.first := by
+  unfold learnIds
+  refine foldl_firstF _ ?_ _ _
+  intro m s
+  unfold learnId
+  split
+  · split <;> simp [MonS.putEx]
+  · rfl
+
+theorem appends_first (prov : α → Prov σ) (m : MonS σ α) (l : List (Append σ α)) : (foldV (appendOne prov) m l).1.first = m.first := by
+  refine foldV_firstF _ ?_ _ _
+  intro m a
+  unfold appendOne
+  split
+  · rfl
+  · split
+    · simp [MonS.addLog]
+    · rfl
+
+theorem ev08_first (m : MonS σ α) (k : Nat) (e : MEx σ) (lost : Bool) (id : EvId) (pay : Option α) :
+    (ev08 m k e lost id pay).1.first = m.first := by
+  unfold ev08
+  split
+  · rfl
+  · split <;> rfl
+
+theorem events_first (prov : α → Prov σ) (m : MonS σ α) (l : List (Sent α)) : (foldV (evStep prov) m l).1.first = m.first := by
+  refine foldV_firstF _ ?_ _ _
+  intro m s
+  unfold evStep
+  split
+  · rfl
+  · split
+    · rfl
+    · rfl
+    · rfl
+    · exact foldV_firstF _ (fun m a => by simp [jsonOne]) _ _
+    · exact ev08_first _ _ _ _ _ _
+    · rw [ev08_first, routeBind_firstF]
+
+
+theorem applyPurges_frame (l : List (σ × Nat × Nat)) (m : MonS σ α) :
+    (applyPurges m l).exs = m.exs ∧ (applyPurges m l).logs = m.logs ∧ (applyPurges m l).store = m.store ∧
+    (applyPurges m l).posts = m.posts ∧ (applyPurges m l).jsonMode = m.jsonMode := by
+  induction l generalizing m with
+  | nil => exact ⟨rfl, rfl, rfl, rfl, rfl⟩
+  | cons x t ih =>
+    simp only [applyPurges, List.foldl_cons]
+    obtain ⟨a, b, c, d, e⟩ := ih { m with first := fun s t => if s = x.1 ∧ t = x.2.1 then max (m.first s t) x.2.2 else m.first s t }
+    exact ⟨a, b, c, d, e⟩
+
+theorem applyPurges_first (s : σ) (t : Nat) : ∀ (l : List (σ × Nat × Nat)) (m : MonS σ α),
+    (applyPurges m l).first s t =
+      ((l.filter (fun x => decide (x.1 = s) && x.2.1 == t)).map (·.2.2)).foldl max (m.first s t) := by
+  intro l
+  induction l with
+  | nil => intro m; rfl
+  | cons x rest ih =>
+    intro m
+    simp only [applyPurges, List.foldl_cons]
+    have := ih { m with first := fun s' t' => if s' = x.1 ∧ t' = x.2.1 then max (m.first s' t') x.2.2 else m.first s' t' }
+    simp only [applyPurges] at this
+    rw [this]
+    by_cases hx : x.1 = s ∧ x.2.1 = t
+    · obtain ⟨rfl, rfl⟩ := hx
+      simp [List.filter_cons]
+    · have hf : (decide (x.1 = s) && x.2.1 == t) = false := by
+        by_cases h1 : x.1 = s
+        · have : x.2.1 ≠ t := fun h2 => hx ⟨h1, h2⟩
+          simp [h1, this]
+        · simp [h1]
+      have hx' : ¬ (s = x.1 ∧ t = x.2.1) := fun ⟨a, b⟩ => hx ⟨a.symm, b.symm⟩
+      simp [List.filter_cons, hf, hx']
+
+theorem first_purgesOf {sn : σ} {c c' : Conn α} (hw' : Inv c') (hp' : InvP c') (hpm : ∀ sid, c.purged sid ≤ c'.purged sid)
+    {m : MonS σ α} (hm : ∀ sid, m.first sn sid = c.purged sid) (sid : Nat) :
+    (applyPurges m (purgesOf sn c c')).first sn sid = c'.purged sid := by
+  rw [applyPurges_first]
+  have hfil : (purgesOf sn c c').filter (fun x => decide (x.1 = sn) && x.2.1 == sid) =
+      (purgesOf sn c c').filter (fun x => x.2.1 == sid) := by
+    apply List.filter_congr
+    intro x hx
+    unfold purgesOf at hx
+    simp only [List.mem_flatMap, List.mem_range] at hx
+    obtain ⟨k, _, hk⟩ := hx
+    split at hk
+    · cases hk
+    · simp at hk; subst hk; simp
+  rw [hfil]
+  unfold purgesOf
+  rw [filter_flatMap_range (fun k => if c'.purged k = c.purged k then [] else [(sn, k, c'.purged k)]) (fun x => x.2.1)
+    (by intro i x hx; split at hx; · cases hx
+        · simp at hx; subst hx; rfl) sid]
+  rw [hm]
+  split
+  · split
+    · rename_i heq; simp [heq]
+    · simp; have := hpm sid; omega
+  · rename_i hlt
+    have hnone : c'.store sid = none := by
+      cases h : c'.store sid with
+      | none => rfl
+      | some l => exact absurd (hw'.store_lt sid (by rw [h]; rfl)) hlt
+    have h0 : c'.purged sid = 0 := by have := hp' sid; rw [hnone] at this; simpa using this
+    have := hpm sid
+    simp; omega
+
 theorem step_obsOf (prov : α → Prov σ) (m : MonS σ α) (sn : σ) (og : Origin) (c c' : Conn α) :
     Mon.step prov m (obsOf sn og c c') =
-      ((foldV (evStep prov) (foldV (appendOne prov)
+      (applyPurges (foldV (evStep prov) (foldV (appendOne prov)
           (learnIds (learnRows (openAll m (obsOf sn og c c')) (obsOf sn og c c')) (obsOf sn og c c')) (appendsOf sn c c')).1
-          ((sentM c c').map toSent)).1,
-       ((foldV (appendOne prov)
+          ((sentM c c').map toSent)).1 (purgesOf sn c c'),
+       (({ v08 := if m.store then (openedOf c c').findSome? (checkPurged m (obsOf sn og c c')) else none } : Viol).or
+        ((foldV (appendOne prov)
           (learnIds (learnRows (openAll m (obsOf sn og c c')) (obsOf sn og c c')) (obsOf sn og c c')) (appendsOf sn c c')).2.or
         (foldV (evStep prov) (foldV (appendOne prov)
           (learnIds (learnRows (openAll m (obsOf sn og c c')) (obsOf sn og c c')) (obsOf sn og c c')) (appendsOf sn c c')).1
-          ((sentM c c').map toSent)).2).or
+          ((sentM c c').map toSent)).2)).or
         { v08 := quiesce (foldV (evStep prov) (foldV (appendOne prov)
           (learnIds (learnRows (openAll m (obsOf sn og c c')) (obsOf sn og c c')) (obsOf sn og c c')) (appendsOf sn c c')).1
           ((sentM c c').map toSent)).1 (obsOf sn og c c') }) := rfl
 
+theorem checkPurged_ok {sn : σ} {og : Origin} {c c' : Conn α} (hf : RecFacts og c c') {m : MonS σ α}
+    (hm : ∀ sid, m.first sn sid = c.purged sid) :
+    (openedOf c c').findSome? (checkPurged m (obsOf sn og c c')) = none := by
+  rw [List.findSome?_eq_none_iff]
+  intro x hx
+  unfold openedOf at hx
+  simp only [List.mem_map, List.mem_range'_1] at hx
+  obtain ⟨j, ⟨hj1, hj2⟩, rfl⟩ := hx
+  have hjn : j = c.exs.length := by have := hf.new1; omega
+  subst hjn
+  have hlt : c.exs.length < c'.exs.length := by omega
+  unfold checkPurged
+  have ho : (obsOf sn og c c').origin = og := rfl
+  have hs : (obsOf sn og c c').sess = sn := rfl
+  simp only [ho, hs]
+  split
+  · rename_i hc
+    simp only [Bool.and_eq_true] at hc
+    split
+    · rename_i t ht
+      rw [hm t]
+      rw [if_neg]
+      have hk : (c'.exs[c.exs.length]).kind = .sse := by
+        have := hc.1
+        rw [List.getElem?_eq_getElem hlt] at this
+        simp only [Option.map_some, Option.getD_some, isSSE] at this
+        cases hkk : (c'.exs[c.exs.length]).kind <;> simp [hkk] at this ⊢
+      exact hf.purgedErr hc.2 _ (List.getElem?_eq_getElem hlt) hk t ht
+    · rfl
+  · rfl
+
 theorem record_ok08 (prov : α → Prov σ) {sn : σ} {og : Origin} {c c' : Conn α} (hst : c.cfg.hasStore = true)
-    (hw' : Inv c') (h8' : Inv08 c') (hk' : InvK c') (hg : Grow c c') (hf : RecFacts og c c') {m : MonS σ α}
+    (hw' : Inv c') (h8' : Inv08 c') (hk' : InvK c') (hp' : InvP c') (hpm : ∀ sid, c.purged sid ≤ c'.purged sid)
+    (hg : Grow c c') (hf : RecFacts og c c') {m : MonS σ α}
     (hm : MonRel08 sn m c) :
     (Mon.step prov m (obsOf sn og c c')).2.v08 = none ∧ MonRel08 sn (Mon.step prov m (obsOf sn og c c')).1 c' := by
   have h1 := evRel_open (sn := sn) hg hf hm.exs
@@ -712,9 +892,22 @@ theorem record_ok08 (prov : α → Prov σ) {sn : σ} {og : Origin} {c c' : Conn
     intro sid; rw [e3]; exact hlog2 sid
   have hq := quiesce_ok hw' h8' hk' hf e2 hlog3
   rw [step_obsOf]
-  refine ⟨?_, ⟨?_, hlog3, evRel_weaken e2⟩⟩
-  · simp only [Viol.or, a3, e1, hq]; rfl
-  · show (foldV (evStep prov) _ ((sentM c c').map toSent)).1.store = c'.cfg.hasStore
-    rw [e4, a2, hst1, hg.cfg, hst]
+  obtain ⟨f1, f2, f3, _, _⟩ := applyPurges_frame (purgesOf sn c c') (foldV (evStep prov) (foldV (appendOne prov)
+      (learnIds (learnRows (openAll m (obsOf sn og c c')) (obsOf sn og c c')) (obsOf sn og c c')) (appendsOf sn c c')).1
+      ((sentM c c').map toSent)).1
+  have hfirst3 : ∀ sid, (foldV (evStep prov) (foldV (appendOne prov)
+      (learnIds (learnRows (openAll m (obsOf sn og c c')) (obsOf sn og c c')) (obsOf sn og c c')) (appendsOf sn c c')).1
+      ((sentM c c').map toSent)).1.first sn sid = c.purged sid := by
+    intro sid
+    rw [events_first, appends_first, learnIds_first, learnRows_first, openAll_first]
+    exact hm.first sid
+  refine ⟨?_, ⟨?_, ?_, ?_, ?_⟩⟩
+  · simp only [Viol.or, a3, e1, hq, checkPurged_ok hf hm.first]; simp
+  · rw [f3, e4, a2, hst1, hg.cfg, hst]
+  · exact first_purgesOf hw' hp' hpm hfirst3
+  · intro sid; rw [f2]; exact hlog3 sid
+  · intro j e he
+    obtain ⟨me, hme, r⟩ := evRel_weaken e2 j e he
+    exact ⟨me, by rw [f1]; exact hme, r⟩
 
 end Resume
